@@ -271,12 +271,25 @@ package regattaserver
 //@ import dragonboat "github.com/lni/dragonboat/v4"
 // the log reader behind the server answers with the contiguous run of the shard's log starting at the
 // requested index (this is the statement PROVED for logreader.Simple / Cached: C06.simple.run / C06.cached.run)
+//@ import logreader "github.com/jamf/regatta/storage/logreader"
+//@ import raftpb "github.com/lni/dragonboat/v4/raftpb"
 //@ iface regattaserver.LogReaderService.QueryRaftLog
-//@   assumed
 //@   params lr, ctx, clusterID, logRange, maxSize
 //@   results es, err
-//@   ensures err == nil ==> run(es, clusterID, logRange.FirstIndex) && (len(es) > 0 ==> logRange.FirstIndex + uint64(len(es)) <= logRange.LastIndex)
-//@   modifies nothing
+//@   requires [C06.query.range] 1 <= logRange.FirstIndex && logRange.FirstIndex <= logRange.LastIndex
+//@   ensures [C06.query.run] err == nil ==> run(es, clusterID, logRange.FirstIndex) && (len(es) > 0 ==> logRange.FirstIndex + uint64(len(es)) <= logRange.LastIndex)
+//@   modifies allfields(logreader.cache), allelems(raftpb.Entry)
+// both implementations are proved to refine it; taken for granted: how the readers were wired up, and
+// for the cached reader the property's own quantifier (range end = applied+1 <= last+1, cache kept by
+// its own operations, compaction event delivered before a compacted index is requested)
+//@ refines regattaserver.LogReaderService.QueryRaftLog by logreader.(*Simple).QueryRaftLog
+//@   assuming asType(lr, *logreader.Simple) != nil && asType(lr, *logreader.Simple).LogQuerier != nil
+//@ refines regattaserver.LogReaderService.QueryRaftLog by logreader.(*Cached).QueryRaftLog
+//@   assuming asType(lr, *logreader.Cached) != nil && asType(lr, *logreader.Cached).LogQuerier != nil && asType(lr, *logreader.Cached).ShardCache != nil && asType(lr, *logreader.Cached).ShardCache.shardCache != nil
+//@   assuming logRange.LastIndex <= logLast(clusterID) + 1
+//@   assuming shOf(asType(lr, *logreader.Cached), clusterID) != nil ==> shOf(asType(lr, *logreader.Cached), clusterID).cache != nil && cacheInv(shOf(asType(lr, *logreader.Cached), clusterID).cache) && shOf(asType(lr, *logreader.Cached), clusterID).cache.shard == clusterID
+//@   assuming shOf(asType(lr, *logreader.Cached), clusterID) != nil && len(shOf(asType(lr, *logreader.Cached), clusterID).cache.buffer) > 0 ==> shOf(asType(lr, *logreader.Cached), clusterID).cache.buffer[len(shOf(asType(lr, *logreader.Cached), clusterID).cache.buffer)-1].Index < logRange.LastIndex
+//@   assuming shOf(asType(lr, *logreader.Cached), clusterID) != nil && len(shOf(asType(lr, *logreader.Cached), clusterID).cache.buffer) > 0 ==> logFirst(clusterID) <= shOf(asType(lr, *logreader.Cached), clusterID).cache.buffer[0].Index
 //@ func table.(*ActiveTable).LocalIndex
 //@   assumed
 //@   results r, err
@@ -321,8 +334,8 @@ package regattaserver
 //@   requires l != nil && l.Tables != nil && l.LogReader != nil && l.Log != nil && req != nil && server != nil
 //@   requires [fresh.stream] server.expect == req.LeaderIndex
 //@   requires [raft] forall s uint64, i uint64 :: logAt(s, i).Type == 2 ==> len(logAt(s, i).Cmd) >= 1
-//@   modifies server.expect, world.clock
+//@   modifies server.expect, world.clock, allfields(logreader.cache), allelems(raftpb.Entry)
 //@   loop 0 invariant l.Tables == old(l.Tables) && l.LogReader == old(l.LogReader) && l.Log == old(l.Log) && ctx != nil
-//@   loop 0 invariant [C06.stream.next] logRange.FirstIndex == server.expect && logRange.FirstIndex <= logRange.LastIndex
+//@   loop 0 invariant [C06.stream.next] logRange.FirstIndex == server.expect && 1 <= logRange.FirstIndex && logRange.FirstIndex <= logRange.LastIndex
 //@   loop 1 invariant -1 <= rangeindex && rangeindex < len(entries) && len(commands) == rangeindex + 1 && fresh(commands) && logRange.FirstIndex == server.expect
 //@   loop 1 invariant forall j int :: 0 <= j && j <= rangeindex ==> commands[j] != nil && commands[j].LeaderIndex == entries[j].Index && commands[j].Command != nil && commands[j].Command.LeaderIndex != nil && *commands[j].Command.LeaderIndex == entries[j].Index
